@@ -39,7 +39,7 @@ PROPS = {
         level_text="Proof: for every program over the write API, every buffer size, role, pool and compression setting and every environment answer, the wire of a fault-free connection is a concatenation of frames that the strict RFC 6455 decoder (written from the RFC in WS/Spec/Frame.lean; non-minimal lengths are undecodable) accepts, masked iff client; frame-record level well-formedness (RSV bits, fragmentation grammar, control frames) and payload content are WS.Lemmas.WireWF / Content; a compressed message is exactly one RSV1 message whose payload is the deflate stream minus its tail, however flate chunks its output; every client frame takes the next draw of the key source (key_per_frame) and servers never mask. Tie: exact wire bytes of the real package vs the model on random programs incl. prepared messages, compression toggles, pools; independent Go RFC decoder + inflater on the real wire.",
         level_note="crypto/rand quality is not modelled (site inventory pins newMaskKey/maskRand uses); flate output is an environment answer validated against the trunc spec. Finding F8 (prepared data message while a writer is open) excluded from the grammar theorem and recorded.",
         lean=["WS.Props.C02"],
-        streams=[("w", 800, 16000), ("wclose", 300, 6000), ("wf8", 150, 2000)],
+        streams=[("w", 800, 16000), ("wclose", 300, 6000), ("wf8", 150, 2000), ("sched", 120, 2000)],
         assumptions=[ASSUME_FLATE],
     ),
     "C03": P(
@@ -145,10 +145,10 @@ PROPS = {
     ),
     "C16": P(
         technique="Lean 4 theorems over the handshake plan machine + exhaustive fault enumeration by differential correspondence",
-        level_text="Proof over the plan machine (direct dial, plain HTTP CONNECT proxy, Upgrade after hijack; with/without timeout): whichever operation fails no Conn is returned and the net.Conn is closed, with the close the last operation; on success the Conn is open and the last deadline operation sets the zero time; with a timeout the first client operation arms the deadline. Tie/fault enumeration (exhaustive over the 6 configurations x every operation x {error, timeout, EOF}): the real Dial / Upgrade run over a scripted net.Conn that records every call; the recorded operation sequence must equal the model's plan in the fault-free run and in every faulted run; non-200 and malformed CONNECT replies abort the dial (F6 regression).",
+        level_text="Proof over the plan machine (direct dial, plain HTTP CONNECT proxy, Upgrade after hijack; with/without timeout): whichever operation fails no Conn is returned and the net.Conn is closed, with the close the last operation; on success the Conn is open and the last deadline operation sets the zero time; with a timeout the first client operation arms the deadline. Tie/fault enumeration (exhaustive over the 9 configurations (server / client / client via proxy x HandshakeTimeout / no deadline / deadline from the caller's context) x every operation x {error, timeout, EOF}): the real Dial / Upgrade run over a scripted net.Conn that records every call; the recorded operation sequence must equal the model's plan in the fault-free run and in every faulted run; non-200 and malformed CONNECT replies abort the dial (F6 regression).",
         level_note="Partial: operations inside crypto/tls and the SOCKS5 client are observed in C18's matrix, not modelled; that a context deadline interrupts a TLS handshake is the Go runtime's.",
         lean=["WS.Props.C16"],
-        streams=[("hsfault", 6, 6), ("matrix", 60, 400)],
+        streams=[("hsfault", 9, 9), ("matrix", 60, 400)],
         exhaustive=True,
     ),
     "C17": P(
@@ -164,7 +164,7 @@ PROPS = {
         level_text="Proof over Client.dialPlan for every configuration {no proxy, http, https, socks5} x {ws, wss} x 2^3 dial functions x credentials x certificate case: for wss the library does TLS to the backend with the URL host as ServerName (over the tunnel when a proxy is used) on every path except a bare custom NetDialTLSContext, and a dial succeeds only with a certificate valid for the host unless the user disabled verification; ws gets no TLS; an HTTP(S) proxy gets a CONNECT, with Basic auth exactly when the proxy URL carries a password; the first hop goes to the proxy with the applicable custom function; hostPortNoPort default ports incl. IPv6 literals. Tie (exhaustive over the runnable cells, 713): real Dials over in-memory connections to in-process http/https/socks5 proxies and TLS/plain backends with a private CA (valid / other-host / untrusted certificates); observed first-hop function and address, CONNECT line and Proxy-Authorization, SOCKS5 request and credentials, SNI at the backend, whether the upgrade request reached the backend and the dial outcome must equal the model's; oracle: no upgrade request outside verified TLS, exactly one CONNECT for host:port.",
         level_note="Partial: crypto/tls and x/net/proxy are exercised, not modelled; cells that need the real network (no custom dial function applicable) are not runnable offline and are skipped; proxy selection via environment variables is net/http's.",
         lean=["WS.Props.C18"],
-        streams=[("matrix", 220, 1700), ("unit", 200, 2000), ("hsfault", 6, 6)],
+        streams=[("matrix", 220, 1700), ("unit", 200, 2000), ("hsfault", 9, 9)],
     ),
     "C19": P(
         technique="Lean 4 theorems over the prepared-message model (via the per-message round-trip theorem) + differential correspondence with shared prepared messages",
